@@ -31,6 +31,7 @@ import (
 	"strconv"
 	"strings"
 	"sync"
+	"sync/atomic"
 	"time"
 
 	"github.com/datastax/cql-proxy/codecs"
@@ -133,7 +134,7 @@ func (p *Proxy) OnEvent(event proxycore.Event) {
 			// connection encodes the frame in its own writer goroutine.
 			frm := frame.NewFrame(p.cluster.NegotiatedVersion, -1, evt.Message)
 			err := cl.conn.Write(proxycore.SenderFunc(func(writer io.Writer) error {
-				return cl.codec.EncodeFrame(frm, writer)
+				return cl.getCodec().EncodeFrame(frm, writer)
 			}))
 			cl.conn.LocalAddr()
 			if err != nil {
@@ -327,8 +328,8 @@ func (p *Proxy) handle(conn net.Conn) {
 		ctx:                 p.ctx,
 		proxy:               p,
 		preparedSystemQuery: make(map[[preparedIdSize]byte]interface{}),
-		codec:               codecs.CustomRawCodec,
 	}
+	cl.codec.Store(&codecs.CustomRawCodec)
 	p.addClient(cl)
 	cl.conn = proxycore.NewConn(conn, cl)
 	cl.conn.Start()
@@ -553,11 +554,15 @@ type client struct {
 	compression         string
 	preparedSystemQuery map[[16]byte]interface{}
 	preparedSelectQuery map[[16]byte]interface{}
-	codec               frame.RawCodec
+	codec               atomic.Pointer[frame.RawCodec] // Replaced by `STARTUP` while responses may be being encoded
+}
+
+func (c *client) getCodec() frame.RawCodec {
+	return *c.codec.Load()
 }
 
 func (c *client) Receive(reader io.Reader) error {
-	raw, err := c.codec.DecodeRawFrame(reader)
+	raw, err := c.getCodec().DecodeRawFrame(reader)
 	if err != nil {
 		if !errors.Is(err, io.EOF) {
 			c.proxy.logger.Error("unable to decode frame", zap.Error(err))
@@ -572,7 +577,7 @@ func (c *client) Receive(reader io.Reader) error {
 		return nil
 	}
 
-	body, err := c.codec.DecodeBody(raw.Header, codecs.NewFrameBodyReader(raw.Body))
+	body, err := c.getCodec().DecodeBody(raw.Header, codecs.NewFrameBodyReader(raw.Body))
 	if err != nil {
 		c.proxy.logger.Error("unable to decode body", zap.Error(err))
 		return err
@@ -587,7 +592,7 @@ func (c *client) Receive(reader io.Reader) error {
 	case *message.Startup:
 		if compression, ok := msg.Options["COMPRESSION"]; ok {
 			if codec, ok := codecs.CustomRawCodecsWithCompression[strings.ToLower(compression)]; ok {
-				c.codec = codec
+				c.codec.Store(&codec)
 				c.compression = compression
 			} else {
 				c.proxy.logger.Error("unsupported compression type used by client", zap.String("compression", compression))
@@ -891,7 +896,7 @@ func (c *client) interceptSystemQuery(hdr *frame.Header, stmt interface{}) {
 
 func (c *client) send(hdr *frame.Header, msg message.Message) {
 	_ = c.conn.Write(proxycore.SenderFunc(func(writer io.Writer) error {
-		return c.codec.EncodeFrame(frame.NewFrame(hdr.Version, hdr.StreamId, msg), writer)
+		return c.getCodec().EncodeFrame(frame.NewFrame(hdr.Version, hdr.StreamId, msg), writer)
 	}))
 }
 
@@ -954,7 +959,7 @@ func (c *client) maybeOverrideUnsupportedWriteConsistency(isSelect bool, raw *fr
 // has the tracing flag set (it accounts for a tracing ID that only responses carry), which corrupts the framing.
 func (c *client) reencodeFrame(raw *frame.RawFrame, body *frame.Body) interface{} {
 	frm := &frame.Frame{Header: raw.Header, Body: body}
-	if rawFrm, err := c.codec.ConvertToRawFrame(frm); err == nil {
+	if rawFrm, err := c.getCodec().ConvertToRawFrame(frm); err == nil {
 		return rawFrm
 	} else {
 		c.proxy.logger.Error("unable to re-encode frame after overriding the consistency level", zap.Error(err))
@@ -977,7 +982,7 @@ func (c *client) maybeStorePreparedMetadata(raw *frame.RawFrame, isSelect bool, 
 	logger := c.proxy.logger
 
 	if prepareMsg, ok := msg.(*message.Prepare); ok && raw.Header.OpCode == primitive.OpCodeResult { // Prepared result
-		frm, err := c.codec.ConvertFromRawFrame(raw)
+		frm, err := c.getCodec().ConvertFromRawFrame(raw)
 		if err != nil {
 			logger.Error("error attempting to decode prepared result message")
 		} else if preparedResultMsg, ok := frm.Body.Message.(*message.PreparedResult); !ok { // TODO: Use prepared type data to disambiguate idempotency
